@@ -103,7 +103,7 @@ Section WithVerify.
       valid_assuming k e l = true /\
       (forall t, a_timestamp a = Some t -> valid_at k t = true) /\
       can_sign k a = true /\
-      verify (k_id k) (a_content a) (a_sig a) = true.
+      verify (k_id k) (a_content a) (a_sig_core a) = true.
   Proof.
     intros tr st e l a H. unfold check in H. apply andb_prop in H as [Hs H]. split; [exact Hs|].
     destruct (find_key tr st (a_sign_key a)) as [k|] eqn:Ek; [|discriminate].
@@ -119,7 +119,7 @@ Section WithVerify.
     exists k, find_key tr st (a_sign_key a) = Some k /\ k_account k = a_authority a /\
       k_since k <= now /\ (forall u, k_until k = Some u -> now < u) /\
       (forall t, a_timestamp a = Some t -> k_since k <= t /\ forall u, k_until k = Some u -> t < u) /\
-      can_sign k a = true /\ verify (a_sign_key a) (a_content a) (a_sig a) = true.
+      can_sign k a = true /\ verify (a_sign_key a) (a_content a) (a_sig_core a) = true.
   Proof.
     intros tr st now a H. unfold check_now in H.
     destruct (accept_implies _ _ _ _ _ H) as (_ & k & Ek & _ & Hid & Hacc & Hv & Hts & Hcs & Hver).
@@ -162,12 +162,19 @@ Section WithVerify.
      genuine one by changing its content or its decoded signature, unless the result is itself genuine. *)
   Lemma mutation_rejected_gen : forall (G : list (bytes * bytes * bytes)),
     (forall kid c s, verify kid c s = true -> In (kid, c, s) G) ->
-    forall tr st e l a, ~ In (a_sign_key a, a_content a, a_sig a) G -> check verify tr st e l a = false.
+    forall tr st e l a, ~ In (a_sign_key a, a_content a, a_sig_core a) G -> check verify tr st e l a = false.
   Proof.
     intros G HG tr st e l a Hnot. destruct (check verify tr st e l a) eqn:E; [|reflexivity].
     destruct (accept_implies _ _ _ _ _ E) as (_ & k & _ & _ & Hid & _ & _ & _ & _ & Hver).
     rewrite Hid in Hver. apply HG in Hver. contradiction.
   Qed.
+
+  (* ... but the decoded signature itself is NOT pinned down: verification reads only the signature core, so two
+     assertions that differ only in the unhashed subpacket area of the signature get the same verdict *)
+  Lemma sig_outside_core_ignored : forall tr st e l a s',
+    check verify tr st e l (mkA (a_supported a) (a_authority a) (a_sign_key a) (a_timestamp a) (a_headers a) (a_content a) s' (a_sig_core a))
+    = check verify tr st e l a.
+  Proof. intros. reflexivity. Qed.
 End WithVerify.
 
 (* the instance the correspondence uses satisfies the idealisation for the single genuine signature *)
